@@ -1,4 +1,5 @@
 """Running the implementation and canonicalising what it does (errors by class, never by message)."""
+import os, zlib
 from harness import core
 core.use_repo()
 from pyasn1 import error
@@ -41,8 +42,30 @@ def run_encode(codec, obj, **opts):
         return ('err', err_class(e), '%s: %s' % (type(e).__name__, str(e)[:200]))
 
 
+HISTORY_ON = os.environ.get('VERIF_HISTORY', '1') != '0'
+
+
+def warm(codec, data, **opts):
+    """A history: the other codecs' decoders see the same octets first (with the same options and with
+    none).  The model's decoders are functions of (codec, type, octets) alone, so nothing that ran
+    before may change an outcome; caches shared between calls or between codecs would."""
+    for other in ('BER', 'CER', 'DER'):
+        if other == codec:
+            continue
+        for kw in (opts, {}):
+            try:
+                DEC[other].decode(data, **kw)
+            except RecursionError:
+                pass
+            except Exception:
+                pass
+
+
 def run_decode(codec, data, **opts):
-    """('ok', obj, rest) | ('err', coq err text, repr)"""
+    """('ok', obj, rest) | ('err', coq err text, repr).  For a quarter of the inputs (chosen by a checksum
+    of the octets, so a replay does the same) the call is preceded by the history `warm`."""
+    if HISTORY_ON and len(data) < 4096 and zlib.crc32(bytes(data)) & 3 == 0 and not opts.get('substrateFun'):
+        warm(codec, data, **opts)
     try:
         v, rest = DEC[codec].decode(data, **opts)
         return ('ok', v, bytes(rest))
